@@ -487,11 +487,15 @@ def rule_round2(ctx: Ctx) -> None:
     mb = prog.func(BRK, "MetricBreakpoint.should_break")
     mf = ctx.flow(mb)
     bad = []
-    for st in walk_stmts(mb.node.body):
-        if isinstance(st, ast.Return) and isinstance(st.value, ast.Constant) and st.value.value is False:
-            fs = {k[:3] for k in mf.facts_at(node_of(mf.cfg, st))}
-            if not any(f[0] == "is" and f[2] == "None" for f in fs):
-                bad.append(f"`return False` at line {st.lineno} under {sorted(fs)[:3]}")
+    # every way out of should_break that does not perform the comparison was taken because something *is None*
+    for p_ in enumerate_paths(mf, mf.cfg.entry):
+        last = [n_ for n_ in p_.nodes if n_.kind == "stmt"]
+        if last and isinstance(last[-1].ast, ast.Return) and isinstance(last[-1].ast.value, ast.Call):
+            continue
+        if p_.end == "raise":
+            continue
+        if not any(k[0] == "is" and k[2] == "None" for k in p_.facts):
+            bad.append(f"no comparison on the path [{p_.describe()}]")
     cmp_ret = [st for st in walk_stmts(mb.node.body) if isinstance(st, ast.Return) and isinstance(st.value, ast.Call)]
     ctx.ob("C04-3", "G1", mb, cmp_ret[0] if cmp_ret else None, not bad and len(cmp_ret) == 1, "MetricBreakpoint compares every value that is not None with the threshold (0, 0.0, False and empty containers are readings, not 'missing')"
            + ("" if not bad else " — " + bad[0]))
